@@ -128,6 +128,9 @@ impl Validator {
                     kind: LinkerErrorType::MissingDependency,
                 }) {
                     Ok(mut tld) => {
+                        // Keep the definition visible while its constraints are linked:
+                        // a bound may refer to one of its own named numbers or enumerals
+                        self.tlds.insert(key.clone(), tld.clone());
                         if let Err(mut e) = tld.link_constraint_reference(&self.tlds) {
                             e.contextualize(&key);
                             warnings.push(e.into());
